@@ -7,7 +7,7 @@ RULE = ('real ZMQReceiver / ZMQSender under the scripted simzmq world: 1-4 sourc
         'future requests, CLOSE, OOB, silences around the connection timeout); every third history adversarial; per-item outputs '
         'and state digests compared with the Gallina machines; non-trivial = at least one set returned / one publish; distinct by hash')
 
-PARTIAL = ["C07_rejoin_safe (a balanced receiver returns sets from one source and one id) is checked by the implementation-side oracle ('balanced:two-sources', 'balanced:mixed-ids'), not yet proved; ordering/duplicate-freedom is proved", 'whole splitter->workers->joiner pipelines with unequal speeds are explored in pipeline mode only']
+PARTIAL = ["C07_rejoin_safe (one source, one id per balanced set) is proved for synchronized sources and messages that do not use '' as a topic name; the oracle ('balanced:two-sources', 'balanced:mixed-ids') checks it on the implementation as well", 'whole splitter->workers->joiner pipelines with unequal speeds are explored in pipeline mode only']
 
 def main():
     run = vlib.Run('C07')
